@@ -173,7 +173,7 @@ func (e *fnEnc) analyseCFG() {
 				if ci, ok := in.(ssa.CallInstruction); ok && e.top && e.contract != nil {
 					for _, n := range e.callNames(ci.Common()) {
 						for site := range e.contract.HitSites {
-							if strings.HasPrefix(site, n+"#") {
+							if strings.HasPrefix(site, n+"#") || strings.HasPrefix(site, n+"@") {
 								li.writes[hitsKey(site).Name] = true
 							}
 						}
@@ -411,6 +411,9 @@ func (e *fnEnc) havoc(keyName string) {
 	k, ok := e.vc.keys[keyName]
 	if !ok {
 		return
+	}
+	if e.vc.P.frozenFor(keyName, e.vc.Fn) {
+		return // proved immutable outside the packages that build it
 	}
 	e.cur[keyName] = e.vc.fresh("H!"+k.Name, k.Sort)
 }
